@@ -29,7 +29,8 @@
 (*                  absorbing_state_vec, _unable_to_reach_absorbing, reachable_state_vec *)
 (*                  computed from the ARRAYS (as the code does)                         *)
 (*       Rebuild    TabularMarkovDecisionProcess.from_matrices on those arrays, and the  *)
-(*                  arrays of the rebuilt MDP                                           *)
+(*                  arrays of the rebuilt MDP; also from_matrices on DENSE input arrays  *)
+(*                  (rows under masked-out actions, rewards on zero-probability triples) *)
 (*     Absorbing states of the initial support are never put on the frontier            *)
 (*     ("successors of absorbing states not expanded" holds for initial states too).    *)
 (* (P) invariants at the bottom.                                                        *)
@@ -121,6 +122,11 @@ Derived(m, L, T, Rw, Am, vis) ==
       cannot |-> IF Discounted(m) THEN {} ELSE L \ can,
       reach  |-> vis \cap L]
 
+\* dense, non-canonical input arrays for from_matrices: the dynamics tensor is filled under every action (also
+\* the ones the action matrix masks out) and the reward tensor on every triple (also zero-probability ones)
+DenseT(m, L) == [s \in L |-> [a \in Ac(m) |-> [t \in L |-> m.P[s][a][t]]]]
+DenseR(m, L) == [s \in L |-> [a \in Ac(m) |-> [t \in L |-> m.R[s][a][t]]]]
+
 \* from_matrices: the MDP whose functions read the arrays (states renumbered 1..n in list order)
 FromMatrices(m, ls, T, Rw, Am, d) ==
   LET n == Len(ls) IN
@@ -156,8 +162,8 @@ SameArrays(m, ls, T, Rw, Am, d, x) ==
   /\ {ls[i] : i \in x.d.reach}  = d.reach
 
 \* ------------------------------------------------------------------ machine
-VARIABLES iid, cut, phase, frontier, visited, lst, T, Rw, Am, der, rb
-vars == <<iid, cut, phase, frontier, visited, lst, T, Rw, Am, der, rb>>
+VARIABLES iid, cut, phase, frontier, visited, lst, T, Rw, Am, der, rb, rbd
+vars == <<iid, cut, phase, frontier, visited, lst, T, Rw, Am, der, rb, rbd>>
 M == Batch[iid]
 LSet == Range(lst)
 
@@ -167,7 +173,7 @@ Init ==
   /\ phase = "reach"
   /\ frontier = Frontier0(Batch[iid])
   /\ visited = InitSupp(Batch[iid])          \* S0 = {e for e, p in initial_state_dist().items() if p > 0}
-  /\ lst = <<>> /\ T = <<>> /\ Rw = <<>> /\ Am = <<>> /\ der = <<>> /\ rb = <<>>
+  /\ lst = <<>> /\ T = <<>> /\ Rw = <<>> /\ Am = <<>> /\ der = <<>> /\ rb = <<>> /\ rbd = <<>>
 
 \* while len(frontier) > 0: if len(visited) >= max_states: break; s = frontier.pop(); expand s
 Pop(s) ==
@@ -177,19 +183,19 @@ Pop(s) ==
          new  == succ \ visited
      IN /\ frontier' = (frontier \ {s}) \cup (new \ ExplAbs(M))
         /\ visited' = visited \cup new
-  /\ UNCHANGED <<iid, cut, phase, lst, T, Rw, Am, der, rb>>
+  /\ UNCHANGED <<iid, cut, phase, lst, T, Rw, Am, der, rb, rbd>>
 
 ReachEnd ==
   /\ phase = "reach" /\ (frontier = {} \/ Limit(cut, visited))
   /\ phase' = IF cut = INF THEN "list" ELSE "cutdone"
-  /\ UNCHANGED <<iid, cut, frontier, visited, lst, T, Rw, Am, der, rb>>
+  /\ UNCHANGED <<iid, cut, frontier, visited, lst, T, Rw, Am, der, rb, rbd>>
 
 \* state_list: the explicit list, or the reachable set in sorted order (abstract order = label order)
 MkList ==
   /\ phase = "list"
   /\ lst' = IF M.explicit = 1 THEN SeqOfSet(St(M), M.N) ELSE SeqOfSet(visited, M.N)
   /\ phase' = "rows"
-  /\ UNCHANGED <<iid, cut, frontier, visited, T, Rw, Am, der, rb>>
+  /\ UNCHANGED <<iid, cut, frontier, visited, T, Rw, Am, der, rb, rbd>>
 
 Extend(f, s, v) == [x \in DOMAIN f \cup {s} |-> IF x = s THEN v ELSE f[x]]
 FillRow ==
@@ -198,17 +204,19 @@ FillRow ==
        /\ T'  = Extend(T, s, RowT(M, LSet, s))
        /\ Rw' = Extend(Rw, s, RowR(M, LSet, s))
        /\ Am' = Extend(Am, s, RowA(M, s))
-  /\ UNCHANGED <<iid, cut, phase, frontier, visited, lst, der, rb>>
+  /\ UNCHANGED <<iid, cut, phase, frontier, visited, lst, der, rb, rbd>>
 
 Derive ==
   /\ phase = "rows" /\ DOMAIN T = LSet
   /\ der' = Derived(M, LSet, T, Rw, Am, visited)
   /\ phase' = "derived"
-  /\ UNCHANGED <<iid, cut, frontier, visited, lst, T, Rw, Am, rb>>
+  /\ UNCHANGED <<iid, cut, frontier, visited, lst, T, Rw, Am, rb, rbd>>
 
 Rebuild ==
   /\ phase = "derived"
   /\ rb' = AllArrays(FromMatrices(M, lst, T, Rw, Am, der))
+  \* from_matrices is also called with hand-written dense arrays that are not in canonical form
+  /\ rbd' = AllArrays(FromMatrices(M, lst, DenseT(M, LSet), DenseR(M, LSet), Am, der))
   /\ phase' = "done"
   /\ UNCHANGED <<iid, cut, frontier, visited, lst, T, Rw, Am, der>>
 
@@ -283,6 +291,10 @@ DerivedAgree ==
 \* (P7) rebuilding from the arrays gives identical arrays, vectors and reachable set
 RoundTrip ==
   (phase = "done") => SameArrays(M, lst, T, Rw, Am, der, rb)
+\* (P7b) an MDP built by from_matrices from dense arrays is the same MDP (actions masked by the action matrix,
+\*       rewards only matter on positive-probability transitions): its arrays are the canonical ones
+DenseRebuild ==
+  (phase = "done") => SameArrays(M, lst, T, Rw, Am, der, rbd)
 \* instance filter
 InstancesWellFormed ==
   \* MDP!WellFormed with the discount allowed to be 0 (the wrapper clauses cover discount_rate = 0)
